@@ -305,7 +305,7 @@ def truncatewords(val: str, num: Any = 15, end: str = "...") -> str:
     if num >= MAX_TRUNC_WORDS:
         return val
 
-    if len(words) < num:
+    if len(words) <= num:
         return " ".join(words)
 
     return " ".join(words[:num]) + end
